@@ -161,6 +161,8 @@ impl<'a> ExecutableValidationContext<'a> {
             executable: self,
             variables,
             validated_fragments: HashSet::default(),
+            selection_depth: 0,
+            selection_depth_exceeded: false,
         }
     }
 }
@@ -174,6 +176,11 @@ pub(crate) struct OperationValidationContext<'a> {
     /// The variables defined for this operation.
     pub(crate) variables: &'a [Node<VariableDefinition>],
     pub(crate) validated_fragments: HashSet<Name>,
+    /// Current nesting of `validate_selection_set` calls,
+    /// through fields, inline fragments and fragment spreads.
+    pub(crate) selection_depth: usize,
+    /// Whether the nesting limit was already reported for this operation.
+    pub(crate) selection_depth_exceeded: bool,
 }
 
 impl<'a> OperationValidationContext<'a> {
